@@ -371,7 +371,14 @@ func (m *Match) populateOtherGroups() {
 	if m.otherGroups == nil {
 		m.otherGroups = make([]Group, len(m.matchcount)-1)
 		for i := 0; i < len(m.otherGroups); i++ {
-			m.otherGroups[i] = newGroup(m.regex.GroupNameFromNumber(i+1), m.text, m.matches[i+1], m.matchcount[i+1])
+			// i+1 is the group's slot, which differs from its number when numbers are sparse
+			var name string
+			if capslist := m.regex.capslist; capslist != nil && i+1 < len(capslist) {
+				name = capslist[i+1]
+			} else {
+				name = m.regex.GroupNameFromNumber(i + 1)
+			}
+			m.otherGroups[i] = newGroup(name, m.text, m.matches[i+1], m.matchcount[i+1])
 		}
 	}
 }
